@@ -113,6 +113,31 @@ def single_fault_cases(shard, nshards, run, kinds=None, pairs=False,
                                          faults=[inj[x], inj[y]])
 
 
+def serial_interrupt_cases(shard, nshards, run, kinds=None, pairs=False):
+    """Every scenario of the matrix on the serial NonThreadedExecutor (boto3
+    use_threads=False: every request, read and write runs on the user's
+    thread) with a KeyboardInterrupt raised at every S3 call (before / after
+    its effect), source read, stream read and destination open / seek /
+    write / close / rename in turn.  Thorough: also every pair of one
+    ordinary injected fault and one interrupt."""
+    idx = 0
+    for name, base in scenario_matrix(kinds):
+        idx += 1
+        if idx % nshards != shard:
+            continue
+        b = dict(copy.deepcopy(base), exec='serial', sched=SCHEDS[0])
+        specs = [f for f in fault_specs(b, run)
+                 if f['exc'] == 'injected' and not f['site'].startswith('cb.')]
+        for f in specs:
+            yield name, dict(copy.deepcopy(b), faults=[dict(f, exc='kbi')])
+        if pairs:
+            for x in range(len(specs)):
+                for y in range(len(specs)):
+                    if x != y:
+                        yield name, dict(copy.deepcopy(b), faults=[
+                            specs[x], dict(specs[y], exc='kbi')])
+
+
 def single_preemption_cases(shard, nshards, run, pairs=False):
     """Every schedule with one preemption (thorough: two) for each scenario of
     the matrix extended with cancels and limits of one."""
